@@ -433,7 +433,8 @@ OnFinal(m, ev) ==
       m4 == Check(m3, "C12.event_channel_closed_after_close", initFailed \/ ev.events_closed, ev)
       m4b == Check(m4, "C12.accepted_and_dialled_connections_released",
                    ev.conns_not_released = 0 /\ ev.serial_not_closed = 0, ev)
-      m4c == Check(m4b, "C10.delivered_frames_stay_intact", ev.frames_changed_after_delivery = 0, ev)
+      m4c0 == Check(m4b, "C10.delivered_frames_stay_intact", ev.frames_changed_after_delivery = 0, ev)
+      m4c == Check(m4c0, "C12.no_socket_left_open", ev.sockets_left = 0, ev)
       m5 == Check(m4c, "C12.close_returns", initFailed \/ m.closeRet, ev)
   IN IF initFailed THEN m5
      ELSE FinalIdle(FinalReconnect(FinalBacklog(FinalWriteFault(FinalFanout(FinalAuto(m5, ev), ev), ev), ev), ev), ev)
